@@ -56,6 +56,9 @@ class Type(Scope):
             self.inherit_var = None
         if self.inherit_var is not None:
             self._resolve_inherit_parent(obj_tree, inherit_version)
+        else:
+            # The parent type is gone (renamed, removed): forget what it contributed
+            self.in_children = []
 
     def _resolve_inherit_parent(self, obj_tree, inherit_version):
         # Resolve parent inheritance while avoiding circular recursion
